@@ -155,6 +155,16 @@ def gameStep (z : ZTable) (r : GameRun) (op : String) : GameRun × String × Str
     let tok := if Spec.inCheck g.current g.current.turn then (if g.current.turn = .white then "0-1" else "1-0") else "D:stale"
     let stok := if (Spec.legalMoves g.current).isEmpty then tok else "*"
     ({ r with w := w', sbs := r.sbs.setIfInBounds b { sb with res := sb.res.dropLast ++ [stok] } }, fmtResult res, stok)
+  else if op = "q" then
+    -- pure queries: they must not influence anything reported later (no memo may become part of the position)
+    let bd := r.w.board b
+    let pos := (r.w.cur b).pos
+    let g := sb.game
+    let ms := s!"q:{boolStr (pos.isChecked bd.turn)}:{boolStr (pos.isChecked bd.turn.opp)}:{boolStr (pos.isCheckMate bd.turn)}:{(pos.legalMoves bd.turn).length}"
+    let nl := (Spec.legalMoves g.current).length
+    let chk := Spec.inCheck g.current g.current.turn
+    let ss := s!"q:{boolStr chk}:{boolStr (Spec.inCheck g.current g.current.turn.opp)}:{boolStr (chk && nl == 0)}:{nl}"
+    (r, ms, ss)
   else (r, "bad-op", "bad-op")
 
 def gameOp (st : DriverState) (args : List String) : String :=
@@ -174,7 +184,11 @@ def gameOp (st : DriverState) (args : List String) : String :=
         let (o0m, o0s) := allObs z r0
         let (_, outsM, outsS) := ops.foldl (fun (acc : GameRun × List String × List String) op =>
           let (r, ms, ss) := acc
+          -- `!op`: the step is made but nothing is asked of the boards afterwards (sparse observation)
+          let quiet := op.startsWith "!"
+          let op := if quiet then (op.drop 1).toString else op
           let (r', mres, sres) := gameStep z r op
+          if quiet then (r', ms ++ [mres ++ " unobserved"], ss ++ [sres ++ " unobserved"]) else
           let (om, os) := allObs z r'
           (r', ms ++ [mres ++ " " ++ om], ss ++ [sres ++ " " ++ os])) (r0, ["start " ++ o0m], ["start " ++ o0s])
         String.intercalate " | " outsM ++ " ## " ++ String.intercalate " | " outsS
